@@ -53,6 +53,7 @@ type c02Env struct {
 	polRules map[string]string   // policy name -> rules as written (generator bookkeeping only)
 	tokPols  map[string][]string // token label -> policy names
 	dead     map[string]bool     // tokens the generator revoked or expired (bias only, never used for the verdict)
+	ns       *namespace.Namespace // non-nil: the whole case (mounts, policies, tokens, requests) lives in this child namespace
 	debug    bool
 }
 
@@ -115,11 +116,30 @@ func c02NewEnv(t *testing.T, out *vh.Out, rng *vh.Rand) *c02Env {
 	return e
 }
 
+// ctx: the namespace every request of the case is made in. Authorisation is stated over namespace-relative paths, so
+// the SAME script gives the same trace in a child namespace as in the root namespace (the model does not know which).
+func (e *c02Env) ctx() context.Context {
+	if e.ns != nil {
+		return namespace.ContextWithNamespace(context.Background(), e.ns)
+	}
+	return vhRootCtx()
+}
+
+func (e *c02Env) enterNS(name string) {
+	e.adm(logical.UpdateOperation, "sys/namespaces/"+name, map[string]any{})
+	ns, err := e.c.namespaceStore.GetNamespaceByPath(vhRootCtx(), name)
+	if err != nil || ns == nil {
+		e.t.Fatalf("namespace %s: %v", name, err)
+	}
+	e.ns = ns
+	e.out.Op("ok", "inns", name)
+}
+
 func (e *c02Env) adm(op logical.Operation, path string, data map[string]any) *logical.Response {
 	e.t.Helper()
 	req := &logical.Request{Operation: op, Path: path, ClientToken: e.root, Data: data,
 		Connection: &logical.Connection{RemoteAddr: "127.0.0.1"}}
-	resp, err := e.c.HandleRequest(vhRootCtx(), req)
+	resp, err := e.c.HandleRequest(e.ctx(), req)
 	if err != nil || (resp != nil && resp.IsError()) {
 		e.t.Fatalf("admin request %s %s failed: %v %v", op, path, err, resp)
 	}
@@ -266,7 +286,7 @@ func (e *c02Env) tokExpire(label string) {
 		e.out.Op("ok", "tok-expire", label)
 		return
 	}
-	ctx := vhRootCtx()
+	ctx := e.ctx()
 	te, err := e.c.tokenStore.lookupTainted(ctx, tk.client)
 	res := "ok"
 	if err != nil {
@@ -281,6 +301,9 @@ func (e *c02Env) tokExpire(label string) {
 			e.t.Fatal(err)
 		}
 		leaseID := path.Join(te.Path, salted)
+		if e.ns != nil {
+			leaseID += "." + e.ns.ID
+		}
 		le, err := m.loadEntry(ctx, leaseID)
 		if err != nil {
 			e.t.Fatal(err)
@@ -386,7 +409,7 @@ func (e *c02Env) targeted(l string) (string, string) {
 }
 
 func (e *c02Env) backendOf(mount string) *vhRecBackend {
-	b := e.c.router.MatchingBackend(vhRootCtx(), mount)
+	b := e.c.router.MatchingBackend(e.ctx(), mount)
 	for _, h := range e.backs {
 		if logical.Backend(h) == b {
 			return h
@@ -397,7 +420,7 @@ func (e *c02Env) backendOf(mount string) *vhRecBackend {
 
 func (e *c02Env) req(form, op, rpath, remote string) {
 	tok := e.tokString(form)
-	ctx := vhRootCtx()
+	ctx := e.ctx()
 	type mnt struct {
 		path, prefix string
 		b            *vhRecBackend
@@ -453,7 +476,11 @@ func (e *c02Env) req(form, op, rpath, remote string) {
 			}
 		}
 		if !hit {
-			book[vhKeyClass(o.Key)] = true
+			k := o.Key
+			if e.ns != nil {
+				k = strings.TrimPrefix(k, "namespaces/"+e.ns.UUID+"/")
+			}
+			book[vhKeyClass(k)] = true
 		}
 	}
 	sort.Strings(mw)
@@ -471,7 +498,13 @@ func (e *c02Env) req(form, op, rpath, remote string) {
 	if e.debug && strings.HasPrefix(cls, "err:") {
 		e.t.Logf("req %s %s %s -> %v %v", form, op, rpath, err, resp)
 	}
-	e.out.Op(cls+"|"+j(calls)+"|"+j(mw)+"|"+j(bk), "req", form, op, vh.HexS(rpath), remote)
+	kind := "req"
+	if e.ns != nil && strings.HasPrefix(rpath, "/") {
+		// a leading slash is not namespace-relative: in a child namespace the ACL sees "<ns>//…" (a refusal either
+		// way, but by the ACL instead of by the router); compared up to that (`reqns`), judged by the predicate in full
+		kind = "reqns"
+	}
+	e.out.Op(cls+"|"+j(calls)+"|"+j(mw)+"|"+j(bk), kind, form, op, vh.HexS(rpath), remote)
 }
 
 // ------------------------------------------------------------------------------------------ generator
@@ -543,6 +576,9 @@ func c02Case(t *testing.T, out *vh.Out, rng *vh.Rand, ci, nops int) {
 	e := c02NewEnv(t, out, rng)
 	e.debug = vh.EnvInt("VERIF_C02_DEBUG", 0) != 0
 	defer func() { _ = e.c.Shutdown() }()
+	if ci%3 == 1 {
+		e.enterNS("c02ns")
+	}
 	e.mount("rec/")
 	if rng.Chance(50) {
 		e.mount("deep/er/")
@@ -633,7 +669,7 @@ func c02Case(t *testing.T, out *vh.Out, rng *vh.Rand, ci, nops int) {
 		creq := &logical.Request{Operation: logical.UpdateOperation, Path: "auth/token/create", ClientToken: e.toks[par].client,
 			Data:       map[string]any{"type": "batch", "ttl": "1h", "policies": []string{"pc"}, "no_default_policy": true},
 			Connection: &logical.Connection{RemoteAddr: "127.0.0.1"}}
-		cresp, cerr := e.c.HandleRequest(vhRootCtx(), creq)
+		cresp, cerr := e.c.HandleRequest(e.ctx(), creq)
 		if cerr != nil || cresp == nil || cresp.Auth == nil {
 			e.t.Fatalf("batch child of %s: %v %v", par, cerr, cresp)
 		}
